@@ -364,9 +364,17 @@ UN_XSD = f'''<?xml version="1.0" encoding="UTF-8"?>
             <xs:attribute name="b" type="u:U"/>
           </xs:complexType>
         </xs:element>
+        <xs:element name="extra" minOccurs="0">
+          <xs:complexType><xs:sequence>
+            <xs:any namespace="##targetNamespace" processContents="strict" minOccurs="0"/>
+          </xs:sequence></xs:complexType>
+        </xs:element>
       </xs:sequence>
     </xs:complexType>
   </xs:element>
+  <!-- global elements that only a wildcard can admit -->
+  <xs:element name="vals" type="u:IntList"/>
+  <xs:element name="label" type="xs:token"/>
 </xs:schema>
 '''
 
@@ -715,6 +723,13 @@ def gen_un(rng, fault=None):
         for _ in range(rng.choice((0, 1, 2))):
             item.children.append(N(UN, 'v', text=rng.choice(('007', '12', 'x', ' 5 ', 'none', '1e3'))))
         root.children.append(item)
+    if rng.random() < 0.4:
+        # one child admitted by a wildcard with maxOccurs=1: a global element of list type or of an atomic type
+        extra = N(UN, 'extra', meta={'elem_only': True})
+        if rng.random() < 0.8:
+            extra.children.append(rng.choice((N(UN, 'vals', text=rng.choice(('1 2 3', '4 5', '6')), meta={'wild': True, 'bad_text': '1 x'}),
+                                              N(UN, 'label', text='some label', meta={'wild': True}))))
+        root.children.append(extra)
     return root
 
 
